@@ -180,6 +180,23 @@ func (g *genCtx) makeTxn(n *node, kind string) (coin.Transaction, bool) {
 	for i := 0; i < k; i++ {
 		ins = append(ins, uxs[(perm+i*7)%len(uxs)])
 	}
+	// an output with near-2^64 base hours (legacy exception) in a NON-first position, behind an ordinary one
+	if r.Chance(35) {
+		var legacy, plain coin.UxArray
+		for _, u := range uxs {
+			if u.Body.Hours > 1<<63 {
+				legacy = append(legacy, u)
+			} else if u.Body.Hours > 0 {
+				plain = append(plain, u)
+			}
+		}
+		if len(legacy) > 0 && len(plain) > 0 {
+			ins = coin.UxArray{plain[r.Intn(len(plain))], legacy[r.Intn(len(legacy))]}
+			if r.Chance(30) {
+				ins = append(ins, plain[r.Intn(len(plain))])
+			}
+		}
+	}
 	// dedupe (in case of wraparound)
 	seen := map[cipher.SHA256]bool{}
 	var ins2 coin.UxArray
@@ -340,8 +357,22 @@ func (g *genCtx) makeTxn(n *node, kind string) (coin.Transaction, bool) {
 		} else {
 			spec.outs = append(spec.outs, extra...)
 		}
+	case "legacy-mint":
+		// outputs whose hours sit just below 2^64 (they exist on the real chain: the block path's unchecked
+		// output-hours sum, F14): the two extra outputs add 2^64 to the sum, which wraps back to the honest total.
+		// Spending such an output later makes "base hours + earned hours" overflow — the documented legacy
+		// exception of C03 (it then counts as zero hours)
+		k := uint64(1 + r.Intn(50))
+		spec.outs = append(spec.outs,
+			coin.TransactionOutput{Address: keys[2].addr, Coins: unit, Hours: ^uint64(0) - k},
+			coin.TransactionOutput{Address: keys[3].addr, Coins: unit, Hours: k + 1})
+		if spec.outs[0].Coins > 2*unit {
+			spec.outs[0].Coins -= 2 * unit
+		}
 	case "length":
 		spec.post = func(t *coin.Transaction) { t.Length += uint32(1 + r.Intn(3)) }
+	case "length0":
+		spec.post = func(t *coin.Transaction) { t.Length = []uint32{0, 1, 1<<32 - 1}[r.Intn(3)] }
 	case "type":
 		spec.post = func(t *coin.Transaction) { t.Type = byte(1 + r.Intn(255)) }
 	case "innerhash":
@@ -367,7 +398,7 @@ func (g *genCtx) makeTxn(n *node, kind string) (coin.Transaction, bool) {
 }
 
 var badKinds = []string{"nofee", "lowfee", "hours+", "hours+1", "coins+", "coins-", "coins+1", "coins-1", "zerocoin", "dupout", "unknown-in", "dup-in",
-	"wrong-signer", "badsig", "unsigned", "precision", "outhours-ovf", "coins-wrap-mid", "coins-wrap-last", "length", "type", "innerhash", "null-addr", "respend"}
+	"wrong-signer", "badsig", "unsigned", "precision", "outhours-ovf", "coins-wrap-mid", "coins-wrap-last", "legacy-mint", "length", "length0", "type", "innerhash", "null-addr", "respend"}
 
 func txHex(t *coin.Transaction) string {
 	b, err := t.Serialize()
@@ -437,6 +468,10 @@ func ledgerGen(r *Rng, tier string, emit func(string)) {
 		g := &genCtx{r: r, emit: emit, sweepKind: badKinds[h%len(badKinds)]}
 		if (profile == "c05" && h%3 == 1) || (profile != "c05" && h%12 == 7) {
 			tieHistory(g)
+			continue
+		}
+		if profile != "c05" && h%8 == 3 {
+			legacyHistory(g)
 			continue
 		}
 		genHistory(g, profile)
@@ -570,6 +605,108 @@ func tieHistory(g *genCtx) {
 	}
 	if alive() && r.Chance(50) {
 		g.emit("checkdb F")
+	}
+}
+
+// legacyHistory (C03): outputs whose base hours sit just below 2^64 (the documented legacy exception: when
+// "base + earned" overflows the input counts as ZERO hours), spent together with ordinary inputs in every
+// position, with output hours exactly at, just above and well above what the inputs are worth.
+func legacyHistory(g *genCtx) {
+	r := g.r
+	g.prec, g.burn = 1, 2
+	g.emit("reset arbF=0 gc=100000000000000 gt=1000 burn=2 maxtxn=32768 maxblk=32768 prec=6 ubf=2 umax=32768 uprec=6")
+	if world == nil {
+		return
+	}
+	// the follower F (not arbitrating): an arbitrating node drops a transaction whose output hours overflow
+	// when it sorts by fee, so such outputs only come into being on ordinary nodes
+	P := g.node("F")
+	uxs, headTime := spendable(P)
+	if len(uxs) == 0 {
+		return
+	}
+	gen := uxs[0]
+	gh, err := gen.CoinHours(headTime)
+	if err != nil || gh < 1000 || gen.Body.Coins < 100e6 {
+		return
+	}
+	// block 1: ordinary outputs A_i with some hours, legacy outputs L_i, and the complements that make the
+	// unchecked 64-bit output-hours sum wrap back under the input hours
+	var outs []coin.TransactionOutput
+	nPairs := 2 + r.Intn(2)
+	for i := 0; i < 4; i++ {
+		outs = append(outs, coin.TransactionOutput{Address: keys[i%6].addr, Coins: uint64(3+i) * 1e6, Hours: uint64(20 + r.Intn(200))})
+	}
+	for i := 0; i < nPairs; i++ {
+		k := uint64(1 + r.Intn(40))
+		outs = append(outs,
+			coin.TransactionOutput{Address: keys[(i+1)%6].addr, Coins: uint64(2+i) * 1e6, Hours: ^uint64(0) - k},
+			coin.TransactionOutput{Address: keys[(i+2)%6].addr, Coins: uint64(7+i) * 1e6, Hours: k + 1})
+	}
+	var used uint64
+	for _, o := range outs {
+		used += o.Coins
+	}
+	outs = append(outs, coin.TransactionOutput{Address: keys[0].addr, Coins: gen.Body.Coins - used, Hours: 5})
+	fan := buildTxn(txnSpec{ins: coin.UxArray{gen}, outs: outs, signer: func(int) cipher.SecKey { return ownerKey(gen) }})
+	sb := forgeBlock(P, coin.Transactions{fan}, headTime+10, 0, nil, secKey)
+	g.emit("exec F " + encodeBlock(&sb))
+	for round := 0; round < 3 && alive(); round++ {
+		uxs, headTime = spendable(P)
+		var legacy, plain coin.UxArray
+		for _, u := range uxs {
+			if u.Body.Hours > 1<<63 {
+				legacy = append(legacy, u)
+			} else if u.Body.Hours > 0 && u.Body.Coins < 50e6 {
+				plain = append(plain, u)
+			}
+		}
+		if len(legacy) == 0 || len(plain) == 0 {
+			return
+		}
+		L, A := legacy[r.Intn(len(legacy))], plain[r.Intn(len(plain))]
+		var ins coin.UxArray
+		switch r.Intn(4) {
+		case 0:
+			ins = coin.UxArray{L, A}
+		case 1:
+			ins = coin.UxArray{A, L}
+		case 2:
+			ins = coin.UxArray{L}
+		default:
+			ins = coin.UxArray{A, L}
+			if len(plain) > 1 {
+				for _, a2 := range plain {
+					if a2.Hash() != A.Hash() {
+						ins = append(ins, a2)
+						break
+					}
+				}
+			}
+		}
+		// the block time: an hour or more later, so that the legacy input's "base + earned" overflows
+		when := headTime + 3600*uint64(1+r.Intn(48))
+		// what the inputs are worth at the head (the legacy exception counts as zero)
+		var worth, coins uint64
+		for _, u := range ins {
+			coins += u.Body.Coins
+			if h, err := u.CoinHours(headTime); err == nil {
+				worth += h
+			}
+		}
+		var firstPlain uint64
+		for _, u := range ins {
+			if u.Body.Hours <= 1<<63 {
+				firstPlain, _ = u.CoinHours(headTime)
+				break
+			}
+		}
+		claim := []uint64{worth, worth / 2, worth + 1, worth + firstPlain, worth + firstPlain/2 + 1, 2*worth + 3}[r.Intn(6)]
+		t := buildTxn(txnSpec{ins: ins,
+			outs:   []coin.TransactionOutput{{Address: keys[r.Intn(6)].addr, Coins: coins, Hours: claim}},
+			signer: func(i int) cipher.SecKey { return ownerKey(ins[i]) }})
+		sb := forgeBlock(P, coin.Transactions{t}, when, 0, nil, secKey)
+		g.emit("exec F " + encodeBlock(&sb))
 	}
 }
 
